@@ -44,6 +44,8 @@ pub enum ContItem {
     Frame(Frame),
     /// the listening period ends here (the window timer wins)
     End,
+    /// the continuous reception reports an error (CRC error, radio fault) without delivering anything
+    Fail,
 }
 
 pub struct AInner {
@@ -117,6 +119,12 @@ impl<const PW: u8, const GAIN: i8> PhyRxTx for ARadio<PW, GAIN> {
         loop {
             {
                 let mut g = self.0.borrow_mut();
+                if let Some(ContItem::Fail) = g.conts.front() {
+                    g.conts.pop_front();
+                    g.calls += 1;
+                    g.log.push(AOp::RxCont { got: None, failed: true });
+                    return Err("rx_continuous error");
+                }
                 if let Some(ContItem::Frame(_)) = g.conts.front() {
                     let failed = g.fault();
                     if failed {
@@ -242,6 +250,11 @@ pub struct Script {
     /// the radio stays down for this many consecutive calls from `fault_at` on (0 / 1: one call)
     #[serde(default)]
     pub fault_burst: usize,
+    /// the continuous reception before RX1 / before RX2 reports an error once (Class C)
+    #[serde(default)]
+    pub rxc1_fail: bool,
+    #[serde(default)]
+    pub rxc2_fail: bool,
     /// the n-th low_power() call of this public call fails (a position that does not shift when a window
     /// hears one more frame)
     #[serde(default)]
@@ -348,9 +361,15 @@ impl<const PW: u8, const GAIN: i8, const N: usize> ACore<PW, GAIN, N> {
         for f in &s.rxc1 {
             g.conts.push_back(ContItem::Frame(f.clone()));
         }
+        if s.rxc1_fail {
+            g.conts.push_back(ContItem::Fail);
+        }
         g.conts.push_back(ContItem::End);
         for f in &s.rxc2 {
             g.conts.push_back(ContItem::Frame(f.clone()));
+        }
+        if s.rxc2_fail {
+            g.conts.push_back(ContItem::Fail);
         }
         g.conts.push_back(ContItem::End);
         g.fault_at = s.fault_at;
